@@ -1,10 +1,27 @@
-(* C17: theorems are being added; this file holds ONLY statements closed by exact, each followed by Print Assumptions. *)
-From Coq Require Import List NArith ZArith Bool Strings.Byte Strings.String.
+(* C17: a reload reaches the decision modules.  ONLY statements closed by `exact`, each followed by Print Assumptions. *)
+From Coq Require Import List NArith ZArith Bool Strings.Byte Strings.String Permutation.
 Import ListNotations.
-Require Import Params Iauth IauthFacts.
+Require Import Params Iauth ReloadEq.
 Local Open Scope list_scope.
 
-Theorem stray_reply_is_a_noop_on_the_request : forall c tb r svcn text,
-  find_slot (slots tb) 0 svcn (refm r) = None -> reply c tb r svcn text = (Some r, [], []).
-Proof. exact stray_reply_noop. Qed.
-Print Assumptions stray_reply_is_a_noop_on_the_request.
+(* after a reload the configured (service, protocol) pairs and the rule list are those of a daemon started fresh on the new
+   tables, whatever the old slot vector held (stale, referenced, unconfigured or empty slots); fresh = the file's entries in order *)
+Theorem reload_is_like_a_fresh_start : forall c s svs rs t, NoDup (map fst svs) ->
+  let s' := fst (step_ev c s (Reload svs rs t)) in let s0 := init c svs rs t in
+  rules (tb s') = rules (tb s0) /\ Permutation (view (slots (tb s'))) (view (slots (tb s0))) /\ view (slots (tb s0)) = spec svs.
+Proof. exact reload_like_fresh. Qed.
+Print Assumptions reload_is_like_a_fresh_start.
+
+(* a reload touches nothing else and writes nothing to the channel *)
+Theorem reload_touches_only_the_tables : forall c s svs rs t,
+  let s' := fst (step_ev c s (Reload svs rs t)) in
+  rules (tb s') = rs /\ slots (tb s') = services_changed (slots (tb s)) svs /\ reqs s' = reqs s /\ next s' = next s /\ tmo s' = t /\
+  snd (step_ev c s (Reload svs rs t)) = [].
+Proof. exact reload_tables. Qed.
+Print Assumptions reload_touches_only_the_tables.
+
+(* the query pass sees the slot vector only through its configured entries: unconfigured leftovers are never queried *)
+Theorem queries_depend_on_configured_services_only : forall ss slot is_pw r outs efs,
+  qpass (scrub ss) slot is_pw r outs efs = qpass ss slot is_pw r outs efs.
+Proof. exact qpass_configured_only. Qed.
+Print Assumptions queries_depend_on_configured_services_only.
